@@ -345,7 +345,8 @@ reg("C02", gen=lambda rng, n, tier: F.c02(rng, n), budget=(4000, 40000), absolut
          "formatted/with fallbacks; -j -s -z -t, --fallback-oob) x records with more and fewer fields than the "
          "right-most bound: the same Opt through read_and_cut_text_as_bytes and read_and_cut_str in-process, and the "
          "real binary; non-trivial = a fast-lane run that prints data",
-    theorems=[], release=True,
+    theorems=["C02_fast_lane_equals_general_path", "C02_each_record", "C02_last_interesting_field_is_sound",
+              "C02_early_stop_never_changes_a_range", "C02_parser_output_qualifies"], release=True,
     assumptions=["delimiter byte < 128 (a 1-byte -d from the command line is ASCII)", "records with < 2^31 fields"])
 
 reg("C03", gen=lambda rng, n, tier: F.c03(rng, n), budget=(3000, 30000), absolute=False,
